@@ -407,6 +407,9 @@ class EngineRun:
         self.current_sid = getattr(frame, 'stream_id', None)
         if k == 'LOST':
             pass          # the LOST entry point is `_on_connection_closed`, marked there
+        elif 'raw' in self.recv_specs[k]:
+            # a raw message: the model decodes the same bytes with the codec model and dispatches (or ignores) the result
+            self.mark('RAW:%s:%s' % (self.recv_specs[k]['raw'] or '-', self.beh.get(k, 'k')))
         else:
             self.mark(recv_token(self.recv_specs[k], self.beh.get(k, 'k')))
 
@@ -423,6 +426,13 @@ class EngineRun:
             self.recv_specs[k] = s['frame']
             self.beh[k] = s.get('beh', 'k')
             self.t.deliver((k, build_frame(s['frame']).serialize()))
+            return
+        if op == 'raw':
+            k = self.delivered
+            self.delivered += 1
+            self.recv_specs[k] = {'raw': s['hex']}
+            self.beh[k] = s.get('beh', 'k')
+            self.t.deliver((k, bytes.fromhex(s['hex'])))
             return
         if op == 'lost':
             self.on_close_mode = s.get('on_close')
